@@ -101,6 +101,40 @@ def check_keyed(ctx, coq_ok):
                 ctx.note("known finding %s no longer reproduces" % f["id"])
 
 
+def check_amqp_conversations(ctx):
+    """AMQP pairing by channel and method family on full conversations of the AMQP family's
+    independent encoder (many channels interleaved, content-bearing and unreported methods in
+    between), dissected in both half orders and in conversation order: every item joins a request
+    with its answer, no message in two items, nothing answered left in the matcher (the family's
+    report; recorded design limitations of C05 are skipped, not judged here)."""
+    try:
+        from fam import amqp as AQ
+    except Exception as ex:
+        ctx.note("AMQP family not available: %s" % ex)
+        return
+    rng = ctx.rng
+    n = 40 if ctx.tier == "quick" else 600
+    convs = [AQ.gen_normal(rng) for _ in range(n)]
+    lines, meta = [], []
+    for i, conv in enumerate(convs):
+        for mode in ("cs", "sc", "conv"):
+            lines.append(AQ.conv_case("m%d%s" % (i, mode), conv, mode, rng))
+            meta.append((conv, mode))
+    rc, res, raw = AQ.vh(ctx, "run", lines)
+    if rc != 0 or len(res) != len(lines):
+        ctx.broken.append("K_amqp_conv: harness answered %d of %d cases" % (len(res), len(lines)))
+        return
+    reported = 0
+    for line, (conv, mode), out in zip(lines, meta, res):
+        verdict, classes, detail = AQ.judge(conv, mode, out)
+        ctx.count_case(("amqp-conv", line), len(out["items"]) >= 2, "amqp-conversation")
+        if verdict == "violation" and reported < 3:
+            reported += 1
+            ctx.violation({"kind": "amqp-conversation", "order": mode, "why": detail, "case": json.loads(line),
+                           "items": AQ.describe_items(AQ.observed_items(out))[:8], "how": "echo '<case>' | work/bin/vh-amqp run"})
+    ctx.sample({"kind": "amqp-conversation", "order": meta[1][1], "items": len(res[1]["items"])})
+
+
 def run(ctx):
     ctx.build_harness()
     if not ctx.harness_tagged:
@@ -162,6 +196,7 @@ def run(ctx):
             if bad and not ctx.violations:
                 ctx.broken.append("K_seq[%s]: model and implementation differ on history %s" % (proto, M.hist_line(proto, hists[bad[0]])))
     check_keyed(ctx, coq_ok)
+    check_amqp_conversations(ctx)
     ctx.trusted += [
         "gated-reader harness vh-match (one message per read; a side has handled a message when it asks for input again)",
         "modelled, not verified: sync.Map operations linearizable; Sprintf idents injective for the '_'-free address components used (several connections exercised)",
